@@ -2,6 +2,7 @@ package main
 
 import (
 	"bytes"
+	"crypto/cipher"
 	"fmt"
 	"sync"
 
@@ -16,7 +17,7 @@ func init() { registry["C05"] = runC05 }
 func runC05(c *Ctx) {
 	rep := c.Rep
 	rep.FineDistinct()
-	rep.Meta("cases: (key, block) pairs — random, single-bit, all-zero/all-one — through sm4.NewCipher Encrypt/Decrypt vs the reference SM4 (computed S-box); generation continues until every S-box input value was seen in every byte lane of the data path and of the key schedule (instrumented reference reports lanes); histories = random Encrypt/Decrypt sequences on one cipher object with dst==src and disjoint canary buffers, each step compared with the stateless reference; key lengths 0..64. Distinct non-trivial = distinct (class, key-digest/block-digest) for block cases, distinct history shapes for histories.",
+	rep.Meta("cases: (key, block) pairs — random, single-bit, all-zero/all-one — through sm4.NewCipher Encrypt/Decrypt vs the reference SM4 (computed S-box); generation continues until every S-box input value was seen in every byte lane of the data path and of the key schedule (instrumented reference reports lanes); histories = random Encrypt/Decrypt sequences on one cipher object with dst==src and disjoint canary buffers, each step compared with the stateless reference; key-buffer histories = ciphers built one after another from one key buffer edited in place or refilled in between (and other keys interleaved), each object checked against the key bytes it was built from; key lengths 0..64. Distinct non-trivial = distinct (class, key-digest/block-digest) for block cases, distinct history shapes for histories.",
 		3000, []string{"ref SM4 (S-box computed from its algebraic definition; GM/T 0002 vectors at start of run)"},
 		[]string{"2^256 (key,block) space sampled; S-box lane coverage measured, not assumed"})
 
@@ -231,6 +232,61 @@ func runC05(c *Ctx) {
 			rep.Sample(map[string]interface{}{"kind": "history", "key": mon.Hex(key), "ops": hist})
 		}
 	})
+
+	// key-buffer histories (serial): ciphers built one after another from the *same* key buffer whose contents change in
+	// between, interleaved with ciphers for other keys; every object must keep encrypting under the key bytes it was
+	// built from, whatever is done to the buffer or built afterwards
+	{
+		rk := c.Rng("keybuf")
+		for h := 0; h < c.Q(60, 3000); h++ {
+			buf := rk.Bytes(16)
+			type made struct {
+				blk cipher.Block
+				key []byte
+			}
+			var objs []made
+			steps := 2 + rk.Intn(5)
+			var trace []string
+			for st := 0; st < steps; st++ {
+				switch rk.Intn(4) {
+				case 0: // flip a few bits in place
+					buf[rk.Intn(16)] ^= 1 << uint(rk.Intn(8))
+					trace = append(trace, "edit-in-place")
+				case 1: // refill completely
+					rk.Fill(buf)
+					trace = append(trace, "refill")
+				case 2: // another key in a fresh buffer in between
+					k2 := rk.Bytes(16)
+					if b, err := sm4.NewCipher(k2); err == nil {
+						objs = append(objs, made{b, append([]byte{}, k2...)})
+					}
+					trace = append(trace, "other-key")
+				default:
+					trace = append(trace, "same-contents")
+				}
+				b, err := sm4.NewCipher(buf)
+				if err != nil {
+					rep.Violation("C05/NewCipher/rejects-16-byte-key", err.Error(), nil)
+					continue
+				}
+				objs = append(objs, made{b, append([]byte{}, buf...)})
+			}
+			blkIn := rk.Bytes(16)
+			for oi, o := range objs {
+				got := make([]byte, 16)
+				if pi := mon.Guard(func() { o.blk.Encrypt(got, blkIn) }); pi != nil {
+					rep.Violation("C05/keybuf-history/panic/"+pi.Func, pi.Value, nil)
+					continue
+				}
+				if want := ref.SM4EncryptBlock(o.key, blkIn, nil); !bytes.Equal(got, want) {
+					rep.Violation("C05/NewCipher/cipher-does-not-use-the-key-bytes-it-was-built-from", fmt.Sprintf("object %d of history %v", oi, trace),
+						map[string]interface{}{"history": trace, "object": oi, "key_at_construction": mon.Hex(o.key), "block": mon.Hex(blkIn), "got": mon.Hex(got), "want": mon.Hex(want)})
+					break
+				}
+			}
+			rep.Eval(fmt.Sprintf("keybuf-history/steps=%d", steps))
+		}
+	}
 
 	// key lengths
 	for n := 0; n <= 64; n++ {
